@@ -149,7 +149,10 @@ def load_theory_cache(filename, username="master"):
         return cache
 
     # Load all required macros and methods for this file.
-    # Make table for this later.
+    # Make table for this later. Importing these modules may load other
+    # theories as a side effect, which replaces the current theory: restore
+    # it, since the caller may be in the middle of building one.
+    prev_thy = theory.thy
     if filename == 'logic':
         from prover import z3wrapper
     if filename == 'expr':
@@ -158,6 +161,7 @@ def load_theory_cache(filename, username="master"):
         from data import real
     if filename == 'hoare':
         from imperative import imp
+    theory.thy = prev_thy
 
     # Load all imported theories
     depend_list = get_import_order(cache['imports'], username)
